@@ -73,5 +73,36 @@ Theorem C17_one_route_per_method_and_template :
 Proof. exact no_duplicate_table_entries. Qed.
 Print Assumptions C17_one_route_per_method_and_template.
 
+(* ---- which URLs are routed, for every URL and every HTTP method (Proofs/OciSemP.v) ---- *)
+From WF Require Import Proofs.OciSemP.
+Print url_shape.
+Print tok.
+Print rname.
+Print expected_params.
+
+(* a routed URL has the shape of an endpoint that end-1..end-10 define for the method and that the example
+   registers; the match carries that endpoint's handler and the repository name / last token verbatim *)
+Theorem C17_routed_url_reaches_the_specified_handler :
+  forall m url i ps,
+    In m methods -> rsearch oci_chk (oci_router m) url = Some (i, ps) ->
+    exists sh n last b h,
+      In (m, shape_template sh, h) oci_routes /\ spec_handler m sh = Some h
+      /\ url_shape sh n last b url /\ handler_of (i_data i) = h /\ ps = expected_params n sh last.
+Proof. exact oci_routed_means. Qed.
+Print Assumptions C17_routed_url_reaches_the_specified_handler.
+
+(* for every method and every URL: routed iff end-1..end-10 define an endpoint of that method with a URL of that
+   shape (repository name accepted by the name grammar, last token non-empty without '/', at most one trailing
+   '/') - end-5 only if the example registers it *)
+Theorem C17_routed_iff_specified :
+  forall m url,
+    In m methods ->
+    (rsearch oci_chk (oci_router m) url <> None <->
+     exists sh n last b h,
+       spec_handler m sh = Some h /\ ((m, shape_template sh, h) = END5 -> end5_present = true)
+       /\ url_shape sh n last b url).
+Proof. exact oci_spec_semantics. Qed.
+Print Assumptions C17_routed_iff_specified.
+
 (* is end-5 registered?  (false on the pinned example: known finding K1) *)
 Eval vm_compute in end5_present.
